@@ -286,7 +286,53 @@ async def _keepalive(loop, cfg, rounds, gap_margin):
     return dict(nontrivial=False)
 
 
-FAMILIES = {"silent": _silent, "nodata": _nodata, "stall": _stall, "keepalive": _keepalive}
+async def _tail(loop, cfg, size):
+    """The receiver of a download never reads, and the file is smaller than the transport's write buffer takes: no write of
+    the server ever blocks.  The data connection does not move all the same: once socket_timeout has passed the server
+    must have given it up (worker finished, close() called on the data socket); the control channel follows idle_timeout."""
+    server = await make_server(loop, cfg, tree={"/": DIR, "/t": bytes(i % 251 for i in range(size))})
+    watch = Watch(loop)
+    raw = Raw(HOST, PORT, patience=5000)
+    await raw.connect()
+    await raw.cmd("USER anonymous")
+    await raw.cmd("EPSV")
+    dr, dw = await raw.open_data()
+    await asyncio.sleep(0.1)
+    idle, sock = cfg["idle_timeout"], cfg["socket_timeout"]
+    dw.transport.pause_reading()
+    raw.send("RETR /t")
+    code, _ = await raw.reply(50)
+    t_cmd = watch.last_ctrl
+    t_stall = loop.time()
+    await asyncio.sleep(0.2)
+    sdata = [t for t in loop.net.all_transports if t.side == "s" and t.listener_port != PORT][-1]
+    detail = dict(cfg=cfg, size=size, t_cmd=t_cmd, t_stall=t_stall)
+    if code != "150":
+        raise Violation(f"C16/tail/unexpected_first_reply_{code}", detail)
+    if sdata.paused_at is not None:
+        raise Violation("C16/tail/harness_server_blocked_after_all", detail)
+    if sock is not None and (idle is None or t_cmd + idle > t_stall + sock + 1):
+        await asyncio.sleep(sock + 1)
+        pending = [w for c_ in server.connections.values() for w in c_.extra_workers if not w.done()]
+        if pending or not sdata._closing:
+            raise Violation("C16/tail/data_connection_not_given_up_after_socket_timeout",
+                            dict(detail, transfer_task_pending=bool(pending), close_called=bool(sdata._closing), checked_at=loop.time()))
+    ctrl = server_ctrl(loop)[0]
+    if idle is not None:
+        await asyncio.sleep(max(0, t_cmd + idle + 1 - loop.time()))
+        if ctrl.closed_at is None or abs(ctrl.closed_at - (t_cmd + idle)) > TOL:
+            raise Violation("C16/tail/idle_bound_not_applied", dict(detail, closed_at=ctrl.closed_at, expected=t_cmd + idle))
+    else:
+        await asyncio.sleep(50)
+        if ctrl.closed_at is not None:
+            raise Violation("C16/tail/dropped_without_applicable_timeout", dict(detail, closed_at=ctrl.closed_at))
+    raw.close()
+    dw.close()
+    await asyncio.wait_for(server.close(), 1000)
+    return dict(nontrivial=True)
+
+
+FAMILIES = {"silent": _silent, "nodata": _nodata, "stall": _stall, "keepalive": _keepalive, "tail": _tail}
 
 
 def enumerate_cases(tier):
@@ -301,6 +347,8 @@ def enumerate_cases(tier):
         for direction in ("download", "upload"):
             for i in ([0, 1, 8192, 100000] if direction == "download" else [0, 1, 8191, 8192, 50000]):
                 out.append(("stall", ci, (direction, i)))
+        for size in (1, 20000, 60000):
+            out.append(("tail", ci, (size,)))
         for margin in (0.5, 0.01):
             out.append(("keepalive", ci, (8, margin)))
     return out
